@@ -986,6 +986,15 @@ func checkConverterPairs(c *Ctx, r *Rec, fr *fmtRoles, st *scanTables) {
 						if se, ok := resolveInit(info, hostFD, a).(*ast.SliceExpr); ok && se.Low != nil {
 							args = append(args, "[", exprStr(se.Low), ":]")
 						}
+						// strings.TrimPrefix(text, "0x") cuts as many characters as the prefix has (the
+						// token pattern guarantees that the prefix is there)
+						if tc, ok := ast.Unparen(resolveInit(info, hostFD, a)).(*ast.CallExpr); ok && len(tc.Args) == 2 {
+							if tf := calleeOf(info, tc); tf != nil && tf.Pkg() != nil && tf.Pkg().Path() == "strings" && tf.Name() == "TrimPrefix" {
+								if tv := info.Types[tc.Args[1]]; tv.Value != nil {
+									args = append(args, "[", fmt.Sprint(len(strings.Trim(tv.Value.ExactString(), "\""))), ":]")
+								}
+							}
+						}
 						continue
 					}
 					if tv := info.Types[a]; tv.Value != nil {
